@@ -1582,9 +1582,9 @@ yang_ver_stmt :
     }
 
 units_stmt :
-    kywd_units token_string statement_end {        
+    kywd_units string_value statement_end {        
         l := yylex.(*lexer)        
-        l.builder.Units(l.stack.peek(), tokenString($2))
+        l.builder.Units(l.stack.peek(), $2)
         if chkErr2(l, "units", $3) {
             goto ret1
         }
